@@ -20,6 +20,8 @@ import Rooc.Proofs.WFCompileExamples
 import Rooc.Proofs.WFAnalyzerProper
 import Rooc.Proofs.RatInst
 import Rooc.Proofs.WFPerm
+import Rooc.Proofs.WFRel2An
+import Rooc.Proofs.RefLemmas
 namespace Rooc.Props.C08
 open Rooc Rooc.Lin Rooc.WFDedup Rooc.Lin.Examples
 
@@ -483,14 +485,18 @@ example : ∃ lm : LinModel (Ext ℚ), Compile.linearize exA (.fin 0) 0 = .ok lm
   rw [fieldExact_rat] at key
   exact ⟨_, hc, key hc⟩
 
-/-! ### 10. determinism up to the order of the domain map (the part that is proved)
+/-! ### 10. determinism up to the order of the domain map
 
 `Compile.linearize` is a function, so equal inputs give equal outputs; the question is what happens when only the
 ORDER of the declarations changes.  The implementation is checked metamorphically (harness stream
-`domain-permutation`, 0 differences).  Proved here: every read the lowering makes of the declared domain and of the
-bounds map is a name LOOKUP, unchanged by a permutation of a duplicate-free map; and the tail of
-`Linearizer::linearize` turns two final states that differ by the order of their domains into models with the same
-variables, objective, offset and rows and with permuted domains. -/
+`domain-permutation`, 0 differences).  Proved here, for every number type (so for `Float` too): every read the
+lowering and the bounds analysis make of the declared domain and of the bounds map is a name LOOKUP, unchanged by a
+permutation of a duplicate-free map; the tail turns two final states that differ by the order of their domains into
+models with the same variables, objective, offset and rows and with permuted domains; and therefore
+(`compile_permutation_invariant`) the whole compiler is invariant: two models that differ only by the order of their
+declarations compile to the same model up to the order of its domain, or fail with the same error.  The proof is a
+relational pass (`Proofs/WFRel2*.lean`): two runs from states related by "same queue, rows and counters, permuted
+duplicate-free domains, bounds maps with equal lookups" stay related and return EQUAL values. -/
 
 /-- every read of the declared domain is permutation-invariant. -/
 theorem domain_reads_permutation_invariant {d d' : List (DomVar α)} (hp : d.Perm d')
@@ -522,5 +528,63 @@ example : (assemble exA (Ctx.fromVar "x" Arith.one) exA_final).vars =
     (assemble exA (Ctx.fromVar "x" Arith.one) { exA_final with domain := exA_final.domain.reverse }).vars :=
   (tail_permutation_invariant exA _ (s' := { exA_final with domain := exA_final.domain.reverse })
     (List.reverse_perm _).symm rfl).1
+
+/-- **the lowering is invariant under a permutation of the domain and any re-layout of the bounds map**: same
+compiled model up to the order of its domain (`SameUpToDomainOrder`: equal variables, objective, offset, rows,
+direction; permuted domain), or the same error. -/
+theorem lowering_permutation_invariant (m : Model α) {b b' : BoundsMap α} {d d' : List (DomVar α)}
+    (hp : d.Perm d') (hn : (d.map (·.name)).Nodup) (hb : ∀ x, lookupB b x = lookupB b' x) :
+    match linearizeWith m b d, linearizeWith m b' d' with
+    | .ok lm, .ok lm' => SameUpToDomainOrder lm lm'
+    | .error e, .error e' => e = e'
+    | _, _ => False :=
+  linearizeWith_perm m hp hn hb
+
+/-- **`Compile.linearize` is a function of the model up to the order of the domain map**: models with the same
+direction, objective and constraints whose (duplicate-free) declarations are permutations of each other compile to
+the same model up to the order of its domain, or both fail with the same error — for every tolerance, step limit
+and number type. -/
+theorem compile_permutation_invariant (m m' : Model α) (tol : α) (maxSteps : Nat)
+    (ho : m'.optType = m.optType) (hobj : m'.objective = m.objective) (hc : m'.constraints = m.constraints)
+    (hp : m.domain.Perm m'.domain) (hn : SourceNodup m = true) :
+    match Compile.linearize m tol maxSteps, Compile.linearize m' tol maxSteps with
+    | .ok lm, .ok lm' => SameUpToDomainOrder lm lm'
+    | .error e, .error e' => e = e'
+    | _, _ => False :=
+  AnRel.compile_perm m m' tol maxSteps ho hobj hc hp ((WFList.noDup_iff _).mp hn)
+
+/-- non-vacuity (two declarations, swapped): the model with a user variable `$abs_0` fails with the same
+`VarAlreadyDeclared` whichever way round `x` and `$abs_0` are declared. -/
+example : linearizeWith exD exDb exD.domain.reverse = .error (.varAlreadyDeclared "$abs_0") := by
+  have h := lowering_permutation_invariant exD (b := exDb) (b' := exDb) (List.reverse_perm exD.domain).symm
+    (by decide) (fun _ => rfl)
+  rw [exD_fails] at h
+  revert h
+  cases linearizeWith exD exDb exD.domain.reverse with
+  | ok lm => exact fun h => h.elim
+  | error e => exact fun h => by rw [← h]
+
+/-! ### 11. every variable that OCCURS in the source is a variable of the compiled model
+
+The clause of the property as written ("contains every variable that occurs in the source objective or
+constraints") is `source_vars_present` composed with the front end's marking discipline `Ref.Closed m`
+(decidable): every variable occurring in the objective or in a constraint is declared and carries a usage mark
+(`il_exp.rs` increments the mark at every reference; `Compose.closed_of_logicModel` derives it from the semantic
+contract). -/
+
+/-- every variable the meaning of the source depends on is a variable of the compiled model, for the whole
+compiler and any number type. -/
+theorem compile_occurring_vars_present {m : Model α} {tol : α} {maxSteps : Nat} {lm : LinModel α}
+    (hcl : Ref.Closed m = true) (h : Compile.linearize m tol maxSteps = .ok lm) :
+    ∀ x ∈ Ref.modelVars m, x ∈ lm.vars := by
+  intro x hx
+  have h1 := (compile_lengths_and_names h).2.2.2.2.1
+  simp only [Ref.Closed, List.all_eq_true, List.contains_iff_mem] at hcl
+  have hu := hcl x hx
+  simp only [WF.report, List.all_eq_true, List.contains_iff_mem] at h1
+  exact h1 x (by simpa [Ref.usedNames] using hu)
+
+example (tol : Ext Rat) : "x" ∈ (assemble exA (Ctx.fromVar "x" Arith.one) exA_final).vars :=
+  compile_occurring_vars_present (m := exA) (by decide) (exA_compile tol) "x" (by decide)
 
 end Rooc.Props.C08
